@@ -17,6 +17,8 @@ type Config struct {
 	MergeCalls  bool
 	MergeIfs    bool
 	LazyIf      bool
+	Tier        string
+	Seed        uint64
 	Replace     map[string]string
 	HarnessPkg  string
 	NoMerge     []string // substrings of function names never merged
